@@ -111,8 +111,11 @@ pub fn check_functoriality<B: StrictOps>(f: &P, g: &P, tf: TF, loc: &mut Local) 
     };
     loc.trans(8);
     if f.target_type() == g.source_type() {
-        let l = B::compose(f, g).and_then(|c| ap(&c.unwrap()));
-        let r = ap(f).and_then(|a| ap(g).and_then(|b| B::compose(&a, &b).map(|c| c.expect("F(f);F(g) must be defined"))));
+        let l = B::compose(f, g).and_then(|c| match c {
+            Some(c) => ap(&c),
+            None => Err(Fail::Malformed("compose refused matching types".into())),
+        });
+        let r = ap(f).and_then(|a| ap(g).and_then(|b| B::compose(&a, &b).and_then(|c| c.ok_or(Fail::Malformed("F(f);F(g) is undefined: the images have the wrong types".into())))));
         cmp("composition", l, r, loc);
         loc.nontrivial_sub();
     }
